@@ -39,6 +39,20 @@ theorem c32_T1_each_pending_token_fed_once (hasKv : Bool) (ops : List Op) :
   have h := inv_run hasKv ops
   exact ⟨h.calls, by rw [h.pend, flagged_toks]⟩
 
+/-- **C32.T1b′ Exactly once, against a definition on the operations alone.**  With a KV
+cache, the tokens fed by the successful calls, followed by the tokens still pending, are
+exactly `submitted ops`: the in-order concatenation of the `with_prompt`/`append_prompt`
+arguments and the sampled tokens, minus those discarded by `clear_prompt` / a later
+`with_prompt` while still waiting.  So no submitted token is dropped, duplicated or
+reordered, whatever the interleaving (failed runs included). -/
+theorem c32_T1_submitted_tokens_fed_exactly_once (ops : List Op) :
+    fed (okCalls (run .tracked true ops).2) ++ (run .tracked true ops).1.inputIds =
+      submitted ops := by
+  have h := sub_runFrom ops (State.init true) [] (by simp [State.init])
+  simp only [State.init, List.append_nil, List.length_nil, List.nil_append] at h
+  simp only [submitted, run, State.init]
+  rw [h]
+
 /-- **C32.T2/T4 (all histories, failures included)** Call `k` of a KV-cache model meets the
 expectation `logRun` computes from calls `0..k-1`: it starts at the number of tokens fed by
 the successful calls so far, `attention_mask` covers positions `0..start+len`,
@@ -89,14 +103,25 @@ theorem c32_T2_cache_handoff (ops : List Op) (hops : ∀ op ∈ ops, op.isFail =
     have hex := logRun_all_ok (run .tracked true ops).2 LogSt.init hall 0 rfl
     rw [h.1, hex.1]; simp [LogSt.init]
 
-/-- **C32.T5 What a failed `Model::run` does** (either operation, any state): the pending
-tokens, their offset, `prev_tokens` and the recorded marker are untouched — nothing is lost
-and nothing is recorded twice — but the self-attention caches handed to the model are gone. -/
-theorem c32_T5_failed_run_state (r : Rule) (s : State) :
+/-- What a failed `Model::run` does to the state (unfolding of the model, kept as a lemma):
+pending tokens, offset, `prev_tokens` and the recorded marker are untouched, the
+self-attention caches handed to the model are gone. -/
+theorem failed_run_state (r : Rule) (s : State) :
     (step r s .processFail).st = { s with kv := s.kv.map (fun _ => none), calls := s.calls + 1 } ∧
-    (step r s .nextFail).st = { s with kv := s.kv.map (fun _ => none), calls := s.calls + 1 } ∧
-    (step r s .processFail).out = .errRun ∧ (step r s .nextFail).out = .errRun :=
-  ⟨rfl, rfl, rfl, rfl⟩
+    (step r s .nextFail).st = { s with kv := s.kv.map (fun _ => none), calls := s.calls + 1 } :=
+  ⟨rfl, rfl⟩
+
+/-- **C32.T5 Retry after a failed run (trace level)**: from *any* generator state, if a run
+fails, prompts are appended and the model is run again, the second call is handed the failed
+call's tokens followed by the appended tokens, at the same first position — nothing is lost,
+nothing is fed from a later position. -/
+theorem c32_T5_retry_after_failed_run (r : Rule) (s : State) (ps : List (List Nat)) (lg : Bool) :
+    let failOp := if lg then Op.nextFail else Op.processFail
+    let log := (runFrom r s (failOp :: (ps.map Op.append ++ [Op.process]))).2
+    log.map (fun c => (c.toks, c.start, c.ok)) =
+      [(s.inputIds, s.offset, false), (s.inputIds ++ ps.flatten, s.offset, true)] := by
+  cases lg <;>
+    simp [runFrom, runFrom_appends, step, generateFail, generateImpl_call, callOf, Option.toList]
 
 /-- **C32.T5b** The call after a failed call is handed the same tokens' positions again
 (same start) but **no** self-attention cache. -/
@@ -251,6 +276,12 @@ example :
      [⟨[1, 2], 0, none, true, 2, false, 0, true⟩, ⟨[1, 2, 3, 4], 0, none, true, 4, false, 1, true⟩] ∧
     (run .tracked false [.withPrompt [1, 2], .next 3, .append [4], .next 5]).1.prev = [1, 2, 3, 4, 5] := by
   decide
+
+/-- `submitted` on a history with every kind of discard: `clear_prompt` also discards the
+sampled token that was waiting, a second `with_prompt` replaces the first, a failed run
+changes nothing. -/
+example : submitted [.withPrompt [1, 2], .next 3, .append [4, 5], .clear, .append [6], .process,
+    .withPrompt [7], .withPrompt [8], .nextFail, .next 9] = [1, 2, 6, 8, 9] := by decide
 
 /-- Non-vacuity of the error-free hypotheses and of `c32_T7`. -/
 example : (∀ op ∈ [Op.withPrompt [1], .next 2, .append [3], .process], op.isFail = false) ∧
